@@ -267,3 +267,139 @@ def select_driver(name, keys):
 
 select_driver("dataiter/list_of_dicts.py::ListOfDicts.select[one key]", ["a"])
 select_driver("dataiter/list_of_dicts.py::ListOfDicts.select[two keys]", ["b", "a"])
+
+
+# ---- C17: histories ---------------------------------------------------------------------------
+import contextlib
+import io
+
+SHARE_OPS = {
+    "filter": lambda x: x.filter(lambda i: True), "sort": lambda x: x.sort(a=1), "head": lambda x: x.head(2),
+    "copy": lambda x: x.copy(), "reverse": lambda x: x.reverse(), "slice": lambda x: x[:], "tail": lambda x: x.tail(1),
+    "unique": lambda x: x.unique("a"), "filter_out": lambda x: x.filter_out(a=99),
+}
+EDIT_OPS = {
+    "modify": lambda x: x.modify(c=lambda i: 7), "unselect": lambda x: x.unselect("b"),
+    "fill": lambda x: x.fill_missing_keys(z=0), "modify_if": lambda x: x.modify_if(lambda i: True, c=lambda i: 8),
+    "select": lambda x: x.select("a", "b"),
+}
+
+
+def histories(maxlen_, ops):
+    """sequences of (list index, op name): the op is applied to an earlier list and appends a new one"""
+    def rec(prefix, nlists):
+        yield prefix
+        if len(prefix) == maxlen_:
+            return
+        for i in range(nlists):
+            for op in ops:
+                yield from rec(prefix + [(i, op)], nlists + 1)
+    return rec([], 1)
+
+
+def run_history(h):
+    root = ListOfDicts([{"a": 1, "b": 2}, {"a": 0, "b": 3}])
+    lists, parent, model_obs = [root], [None], [False]
+    warned = [False]
+    out = io.StringIO()
+    with contextlib.redirect_stdout(out):
+        for i, op in h:
+            recv = lists[i]
+            if model_obs[i]:
+                warned[i] = True        # this use of an obsolete list prints its one warning
+            if op == "deepcopy":
+                new = recv.deepcopy()
+                parent.append(None)
+            elif op in SHARE_OPS:
+                new = SHARE_OPS[op](recv)
+                parent.append(i)
+            else:
+                new = EDIT_OPS[op](recv)
+                parent.append(i)
+                j = i
+                while j is not None:
+                    model_obs[j] = True
+                    j = parent[j]
+            lists.append(new)
+            model_obs.append(False)
+            warned.append(False)
+    run_history.warned = warned
+    run_history.printed = out.getvalue().count("Warning")
+    return lists, parent, model_obs
+
+
+@driver("dataiter/list_of_dicts.py::ListOfDicts._mark_obsolete")
+def history_driver(run):
+    depth = 4 if run.tier == "thorough" else 3
+    ops = ["filter", "sort", "copy", "slice", "deepcopy", "modify", "unselect", "select"]
+    if run.tier == "thorough":
+        ops += ["head", "reverse", "fill", "modify_if"]
+    run.bound = f"all derivation histories of <= {depth} calls over {len(ops)} methods from one 2-item list"
+    for (h,) in run.inputs(((h,) for h in histories(depth, ops))):
+        h = [tuple(x) for x in h]
+        lists, parent, model = run_history(h)
+        got = [bool(object.__getattribute__(x, "_obsolete")) for x in lists]
+        run.check([h], got == model, expected=model, got=got, clause="obsolete exactly for receiver+ancestors of an edit")
+        run.check([h], run_history.printed == sum(run_history.warned), expected=sum(run_history.warned),
+                  got=run_history.printed, clause="one warning per obsolete list used during the history")
+        # warn-once on next use
+        for x, m in zip(lists, [m and not w for m, w in zip(model, run_history.warned)]):
+            out = io.StringIO()
+            with contextlib.redirect_stdout(out):
+                x.head
+                x.head
+            n = out.getvalue().count("Warning")
+            if n != (1 if m else 0):
+                run.check([h], False, expected=(1 if m else 0), got=n, clause="warning printed exactly once iff obsolete")
+                break
+
+
+@driver("dataiter/list_of_dicts.py::ListOfDicts.deepcopy")
+def deepcopy_driver(run):
+    run.bound = "all lists of <= 2 dicts; every editing method applied to the deep copy"
+    for (l, op) in run.inputs(((l, op) for l in lists(2) for op in EDIT_OPS)):
+        data = mk(l)
+        before = plain(data)
+        cp = data.deepcopy()
+        ok = plain(cp) == before and all(not any(a is b for b in data) for a in cp) and \
+            object.__getattribute__(cp, "_predecessor") is None
+        EDIT_OPS[op](cp)
+        ok = ok and plain(data) == before and not object.__getattribute__(data, "_obsolete")
+        run.check([l, op], ok, expected=before, got=plain(data), clause="edits through a deep copy are invisible in the original")
+
+
+@driver("dataiter/list_of_dicts.py::ListOfDicts.__getattribute__[a public method]")
+def getattribute_driver(run):
+    run.bound = "obsolete x warned in {False,True}; attributes filter/_group_keys/_mark_obsolete/sort"
+    gen = ((o, w, a) for o in (False, True) for w in (False, True) for a in ("filter", "_group_keys", "_mark_obsolete", "sort"))
+    for o, w, a in run.inputs(gen):
+        x = ListOfDicts([{"a": 1}])
+        x._obsolete, x._obsolete_warned = o, w
+        out = io.StringIO()
+        with contextlib.redirect_stdout(out):
+            v1 = getattr(x, a)
+            v2 = getattr(x, a)
+        exp = 1 if (o and not w and a in ("filter", "sort")) else 0
+        run.check([o, w, a], out.getvalue().count("Warning") == exp and (callable(v1) == (a != "_group_keys")),
+                  expected=exp, got=out.getvalue(), clause="warn once")
+
+
+def second_operand_driver(name, op):
+    @driver(name)
+    def _d(run):
+        run.bound = "a, b one-item lists; c = a (+|extend) b; every editing method on c"
+        for (e,) in run.inputs(((e,) for e in EDIT_OPS)):
+            a, b = ListOfDicts([{"a": 1, "b": 1}]), ListOfDicts([{"a": 2, "b": 2}])
+            before = plain(b)
+            c = op(a, b)
+            EDIT_OPS[e](c)
+            changed = plain(b) != before
+            flagged = bool(object.__getattribute__(b, "_obsolete"))
+            run.check([e], (not changed) or flagged, expected="b obsolete (its dicts were edited through c)",
+                      got=f"b._obsolete={flagged}, b={plain(b)}", clause="right operand marked obsolete")
+    return _d
+
+
+if __import__("os").environ.get("PYVC_PROP") == "C17":
+    second_operand_driver("dataiter/list_of_dicts.py::ListOfDicts.__add__", lambda a, b: a + b)
+    second_operand_driver("dataiter/list_of_dicts.py::ListOfDicts.extend[ListOfDicts argument]", lambda a, b: a.extend(b))
